@@ -11,7 +11,8 @@ T2 frame budget (direct z3): the Python frame depth at the innermost probe is ME
    levels <= context_depth_limit + 2 admit f > recursion limit. A satisfying d is replayed on the
    real code: the render must still end in a LiquidError, not RecursionError.
    This is a measured cost model of the code, labelled so.
-Parser progress for arbitrary sources is not claimed (program-only dimension).
+T3 parsing terminates: a selector family of 23 x 24 x 10 unterminated / unbalanced sources x 3 modes is parsed,
+   rendered and tag-analysed untraced under a 5 s alarm (sel_only): a hang is a replayable failure.
 """
 import sys
 
@@ -282,12 +283,99 @@ def _budget(fam):
 
 CONDITIONS.append({"fn": "c09_frame_budget", "quick": 90, "thorough": 200, "sel_only": True})
 
+# ---- T3 parsing terminates promptly (program-only dimension: selector family; each member is parsed and rendered
+# untraced under a wall-clock alarm, so a hang becomes an ordinary, replayable failure) -----------------------------
+import signal  # noqa: E402
+
+from liquid import Mode  # noqa: E402
+
+from vf.hx import cint  # noqa: E402
+
+_OPEN = ["{% if x %}", "{% unless x %}", "{% for i in xs %}", "{% tablerow i in xs %}", "{% case x %}", "{% case x %}{% when 1 %}a",
+         "{% case x %}{% when 1 %}a{% else %}b", "{% capture c %}", "{% comment %}", "{% raw %}", "{% doc %}", "{% liquid if x", "{% liquid case x\nwhen 1",
+         "{% macro m %}", "{% with a: 1 %}", "{% block b %}", "{% translate %}", "{% snippet s %}", "{% ifchanged %}", "{% if x %}{% else %}",
+         "{% if x %}{% elsif y %}", "{% for i in xs %}{% else %}", "{% case x %}{% if y %}z{% endif %}"]
+_TAIL = ["", "text", "{% endif %}", "{% endfor %}", "{% endcase %}", "{{ x", "{% else %}", "{% when 2 %}", "{% break %}", "{% end"]
+_PENV = {}
+
+
+def _penv(mode):
+    if mode not in _PENV:
+        e = Environment(extra=True, tolerance=(Mode.STRICT, Mode.WARN, Mode.LAX)[mode])
+        try:
+            from liquid.extra.tags import SnippetTag
+            e.add_tag(SnippetTag)
+        except Exception:
+            pass
+        _PENV[mode] = e
+    return _PENV[mode]
+
+
+class _Hang(BaseException):
+    pass
+
+
+def _alarm(signum, frame):
+    raise _Hang()
+
+
+def _terminates(src, mode):
+    """True when parsing (and rendering, and tag analysis) of src ends within 5 s, whatever the outcome."""
+    import warnings
+    env = _penv(mode)
+    old = signal.signal(signal.SIGALRM, _alarm)
+    signal.alarm(5)
+    try:
+        with warnings.catch_warnings():
+            warnings.simplefilter("ignore")
+            try:
+                t = env.from_string(src)
+                t.render(x=1, y=2, xs=[1, 2])
+            except _Hang:
+                return False
+            except Exception:
+                pass
+            try:
+                env.analyze_tags_from_string(src)
+            except _Hang:
+                return False
+            except Exception:
+                pass
+        return True
+    finally:
+        signal.alarm(0)
+        signal.signal(signal.SIGALRM, old)
+
+
+def _mk_terminates(mode):
+    nm = "c09_parse_terminates_" + ("strict", "warn", "lax")[mode]
+
+    def f(o1: int, o2: int, t: int) -> bool:
+        """
+        pre: 0 <= o1 <= 22 and -1 <= o2 <= 22 and 0 <= t <= 9
+        post: _
+        """
+        # sources made of one or two unterminated / unbalanced openings and a tail
+        if excluded(nm, locals()):
+            return True
+        o1, o2, t = cint(o1, 0, 22), cint(o2, -1, 22), cint(t, 0, 9)
+        src = _OPEN[o1] + ("" if o2 < 0 else _OPEN[o2]) + _TAIL[t]
+        return finish(untraced(lambda: _terminates(src, mode)))
+    f.__name__ = f.__qualname__ = nm
+    return nm, f
+
+
+for _m in (0, 1, 2):
+    _nm, _f = _mk_terminates(_m)
+    globals()[_nm] = _f
+    CONDITIONS.append({"fn": _nm, "quick": 150, "thorough": 400, "sel_only": True})
+
 ASSUMPTIONS = [
     "recursion families are the concrete templates of harness/c09.py; the recursive call sits inside d nested {% if %} blocks; context_depth_limit is symbolic in 0..6 (T1)",
     "T2 is a measured cost model: frame depth is measured with sys._getframe at a probe tag for 9 (levels, depth) points, fitted exactly to a + b*d + levels*(c + e*d) and cross-checked on 2 more points; z3 decides whether the default limits admit a depth beyond the interpreter's recursion limit, and the witness is replayed on the real code",
     "a render that ends in any LiquidError (ContextDepthError, or one raised on stack exhaustion) counts as cut off; RecursionError reaching the caller is the violation",
 ]
-OUTSIDE = ["termination of parsing for arbitrary sources (program-only dimension; not claimed)", "'finishes promptly' (no time bound is decided)", "recursion through custom tags or drops", "context_depth_limit above 6 in T1"]
+OUTSIDE = ["termination of parsing for sources outside the generated family of unterminated / unbalanced openings (T3 is solver-steered enumeration)", "'finishes promptly' (no time bound is decided)", "recursion through custom tags or drops", "context_depth_limit above 6 in T1"]
 
 
 def selftest():
